@@ -39,3 +39,18 @@ def families(tier, seed):
     if tier == "quick":
         return [("nm", seed, 8000, []), ("auto", seed, 5000, [])]
     return [("nm", seed, 60000, []), ("auto", seed, 40000, [])]
+
+
+# ------------------------------------------------------------------------------------------------------------------------------
+# COMPOSED model, part 2 (branch compose; Model/ComposeAuto.lean, notes/compose.md) — purely additive block.
+OPS = set(OPS) | {'cmpa_opt_period', 'cmpa_sign', 'cmpa_snell', 'cmpa_opt_theta'}
+TOL = dict(TOL)
+TOL.update({'cmpa_snell': ('ulp', 4), 'cmpa_opt_period': ('ulp', 4), 'cmpa_opt_theta': ('ulp', 4)})
+RULE += ' | family compose/c04: the primitive-setup generator of compose/c03 (11 crystals × 5 PM types, poled/unpoled, collinear and non-collinear signals incl. negative angles and counter-propagation); per setup, from the primitives alone: Beam::calc_internal_theta_from_external at a random external angle (0, ≤1e-3, ≤6°), PeriodicPoling::compute_sign, optimum_poling_period (Ok / Err on the length bound / panic), CrystalSetup::optimum_theta'
+LEVEL_NOTE += ' COMPOSED MODEL part 2 (notes/compose.md): the cmpa_* K ops carry NO value computed by the real crate — only the configuration descriptor (what is written into the JSON) or the primitive setup; Spdc.Model.ComposeAuto computes the Snell inverse, the poling sign, the optimum poling period, the optimum crystal angle (Nelder–Mead model NM1D.run on cost closures built from the composed Δk, incl. the simplex nested in the angle cost), the optimum idler and the optimal waist positions itself (`composedExt`), then try_as_spdc / try_as_optimum on top. Observed: outcome classes (OK / ERR:class / PANIC) identical on every case, every optimiser result bit-for-bit (0 ulp; no divergence of a simplex path in 3 seeds × 1500 cases per mode), deff ≤ 2 ulp (the Cfg layer folds PICO/V first).'
+CHECKER_MODULES = list(globals().get("CHECKER_MODULES", [])) + ["Spdc.Real.ComposeLemmas", "Spdc.Real.ComposeAutoLemmas"]
+_families_before_compose_auto = families
+
+
+def families(tier, seed):
+    return _families_before_compose_auto(tier, seed) + [("compose", seed, 300 if tier == "quick" else 4000, ["c04"])]
